@@ -380,6 +380,13 @@ def own_internable(value) -> bool:
   return type(value) is tuple and all(own_internable(e) for e in value)
 
 
+def own_ordered_arguments(buildable):
+  """The stored arguments of a Buildable in an order of the oracle's own (index keys ascending, then names
+  alphabetically) - canonical forms must not depend on the library's ordered_arguments."""
+  items = list(buildable.__arguments__.items())
+  return dict(sorted(items, key=lambda kv: (0, kv[0], "") if isinstance(kv[0], int) else (1, 0, kv[0])))
+
+
 CURRENT_RESULT = None   # the Result being filled: lets check.py salvage failures if the harness crashes
 
 
